@@ -73,7 +73,20 @@ pub fn judge(ctx: &Ctx, run: &Run, what: &str) -> Result<Option<String>, Failure
             return Ok(Some(sig));
         }
         if std::env::var("VERIF_C17_SURVEY").is_ok() {
-            // survey mode (development aid): collect all signatures instead of stopping at the first
+            // survey mode (development aid): collect all signatures instead of stopping at the first,
+            // and keep one input per signature under work/survey/
+            let dir = ctx.verif_dir.join("work").join("survey");
+            let _ = std::fs::create_dir_all(&dir);
+            let base = dir.join(format!("{:016x}", crate::engine::hash_str(&sig)));
+            if !base.with_extension("txt").exists() {
+                let _ = std::fs::write(base.with_extension("txt"), format!("{sig}\n{what}\n{}", run.stderr_str()));
+                let input = ctx.worker_dir(crate::engine::worker_id());
+                for name in ["g6.bin", "g5.bin", "gtv.vcf"] {
+                    if what.contains(name) {
+                        let _ = std::fs::copy(input.join(name), base.with_extension(name));
+                    }
+                }
+            }
             return Ok(Some(format!("SURVEY:{sig}")));
         }
         return Err(Failure::new(format!("{what}: the process panicked / aborted (signature {sig}): {}", run.describe())).with(serde_json::json!({ "signature": sig })));
@@ -763,6 +776,28 @@ fn eval_absurd(ctx: &Ctx, case: &AbsurdCase) -> Verdict {
     Ok(pass)
 }
 
+// ---------------------------------------------------------------------------------------------
+// raw saved inputs (regressions found by surveys, thorough runs and fuzz campaigns)
+
+#[derive(Clone, Debug, Serialize, Deserialize)]
+pub struct RawCase {
+    pub argv: Vec<String>,
+    pub input_hex: String,
+}
+
+fn eval_raw(ctx: &Ctx, case: &RawCase) -> Verdict {
+    let dir = ctx.worker_dir(crate::engine::worker_id());
+    let bytes: Vec<u8> = (0..case.input_hex.len() / 2).filter_map(|i| u8::from_str_radix(&case.input_hex[2 * i..2 * i + 2], 16).ok()).collect();
+    std::fs::write(dir.join("raw.bin"), &bytes).expect("write");
+    let mut argv = case.argv.clone();
+    argv.push("raw.bin".into());
+    let run = cli::sfs(ctx, &argv, Input::Null, &dir);
+    let mut pass = Pass::new();
+    let ex = judge(ctx, &run, &format!("`sfs {}` on a saved {}-byte input", argv.join(" "), bytes.len()))?;
+    finish(&mut pass, ex, &run);
+    Ok(pass)
+}
+
 pub fn check(ctx: &Ctx) -> Check {
     cli::CAP_ADDRESS_SPACE.store(true, std::sync::atomic::Ordering::Relaxed);
     let parts: Vec<Box<dyn Part>> = vec![
@@ -815,6 +850,13 @@ pub fn check(ctx: &Ctx) -> Check {
             exhaustive: true,
             cases: Box::new(|_| tiny_cases()),
             eval: Box::new(eval_tiny),
+        }),
+        Box::new(EnumPart {
+            name: "saved-inputs",
+            rule: "raw inputs saved from surveys, thorough runs and fuzz campaigns (regressions/C17/*.json with part saved-inputs); nothing is enumerated here beyond those files",
+            exhaustive: false,
+            cases: Box::new(|_| Vec::<RawCase>::new()),
+            eval: Box::new(eval_raw),
         }),
         Box::new(RandomPart {
             name: "g5-mutated-spectra",
